@@ -40,6 +40,16 @@ def run(ctx):
         script = [("build", data), ("fill", big, 2, True), ("kl", 1, 2), ("fill", big2, 2, True), ("kl", 1, 2), ("fill", big, 3, False),
                   ("fill", big2, 3, False), ("kl", 2, 3)]
         t2.append(D.session(cfgp, script))
+    # a tree built from an integer-typed sample (the even lattice, halved), filled with fractional samples
+    for i in range(40 if q else 300):
+        d = rng.randint(1, 3)
+        style = rng.choice(["grid", "clusters", "wide", "flag"])
+        data = [[2 * (v // 2) for v in r] for r in D.random_points(rng, rng.randint(8, 120), d, style)]
+        other = D.random_points(rng, rng.randint(1, 150), d, style)
+        cfgp = {"ub": rng.choice([1, 2, 4, 8]), "lbnum": 0, "lbden": 4, "halves": True}
+        script = [("build", data), ("fill", other, 2, True), ("kl", 1, 2), ("fill", D.random_points(rng, rng.randint(1, 40), d, style), 3, False),
+                  ("fill", other, 3, False), ("kl", 2, 3), ("plotly", 1, 2)]
+        t2.append(D.session(cfgp, script))
     ctx.validate("KdqTree", t2, "random sessions (1-4 dims, up to 400 points) + large fills", sabotage=D.sabotage,
                  replay=lambda i: {"cfg": t2[i]["cfg"], "script": t2[i]["script"]},
                  nontrivial=lambda t: not t["ev"][0]["tree"]["leaf"])
